@@ -12,6 +12,11 @@ C13.c every written pack is indexed: the pack writer pipeline has no filtering s
   (R-ORDER 16, shared with C03).
 C13.e / C13.f structural conditions against self-inflicted deadlock (see termination_rules): no rayon wait inside a loop that
   drains a rendezvous stream fed by rayon workers; the tree streamer's pending queue is unbounded.
+C13.h lock order (rules/lockorder.py): the wait-for graph over lock classes - an edge A -> B when a guard of A is live (MIR live
+  range up to its drop) across a call that may acquire B, or that may block on a bounded channel whose other end needs B - is
+  acyclic. A cycle (the indexer read guard kept across the raw packer's write lock and the blocking hand-over to the file
+  writer, which needs the indexer's write lock) deadlocks for some schedule.
+C13.i chunk boundaries do not depend on read fragmentation: end of input is never inferred from a short single read().
 C13.g no process-wide once-cell (static OnceLock/OnceCell) is initialised from function arguments.
 C13.d blob ids do not depend on pack boundaries: ids are computed from plaintext before packing (C07.c), and the
   in-packer duplicate filters only skip blobs (never reorder tree serialisation).
@@ -25,7 +30,7 @@ EXPLANATION = (
     "path from the source walk to the tree archiver is order preserving, workers are joined (status received) before a "
     "command reports success, and the writer pipeline indexes every pack it wrote. Schedule independence and termination "
     "themselves are not decided.")
-NOT_DECIDED = ["equality of results over all interleavings (schedules)", "absence of deadlock / termination", "that no blob is left unreferenced by the index under every interleaving"]
+NOT_DECIDED = ["equality of results over all interleavings (schedules)", "absence of deadlock / termination beyond an acyclic lock-order graph and the C13.e/f conditions (channel rendezvous cycles without locks, rayon pool starvation in general)", "that no blob is left unreferenced by the index under every interleaving"]
 
 # every adaptor of std's sequential Iterator (and itertools) yields its items in an order that is a function of the
 # input order only - never of thread scheduling; the parallel stages allowed are pariter's order-preserving ones
@@ -79,6 +84,10 @@ def run(ctx, rep):
                   what=f"all {len(adaptors)} adaptors between src.entries() and TreeArchiver::add preserve order: {adaptors}" if not bad else
                        f"the archive pipeline contains adaptors that do not preserve order (or are not on the allow-list): {bad}; tree entries would be added in scheduling order")
     termination_rules(ctx, rep)
+    from rules import lockorder
+    lockorder.run(ctx, rep, "C13.h")
+    from rules import C06
+    C06.fragmentation_rule(ctx, rep, "C13.i")
     global_state_rule(ctx, rep)
     from rules import C08
     C08.index_entry_rule(ctx, rep, "C13.c")
